@@ -1029,7 +1029,44 @@ mod sh {
             }
             _ => outcome_string("lzma2r", &run),
         };
-        (obs, oracle("lzma2r", 1, a[1], None, &run))
+        let mut v = oracle("lzma2r", 1, a[1], None, &run);
+        // C18: for a well-formed stream the number of units the MT reader cuts (= chunk_count()) is the
+        // number of independent units in the stream: chunks with control 0x01 or >= 0xE0 (the harness's
+        // own walk over the chunk headers), the first chunk always starting one
+        if v == "ok" {
+            let b = unhex(a[1]);
+            let (mut i, mut indep, mut chunks, mut well_formed) = (0usize, 0usize, 0usize, false);
+            while i < b.len() {
+                let c = b[i];
+                if c == 0 {
+                    well_formed = true;
+                    break;
+                }
+                let len = if c >= 0x80 {
+                    if i + 5 > b.len() { break; }
+                    5 + (if c >= 0xC0 { 1 } else { 0 }) + ((b[i + 3] as usize) << 8 | b[i + 4] as usize) + 1
+                } else if c <= 2 {
+                    if i + 3 > b.len() { break; }
+                    3 + ((b[i + 1] as usize) << 8 | b[i + 2] as usize) + 1
+                } else {
+                    break;
+                };
+                if i + len > b.len() { break; }
+                if c == 1 || c >= 0xE0 || chunks == 0 {
+                    indep += 1;
+                }
+                chunks += 1;
+                i += len;
+            }
+            if well_formed && chunks > 0 {
+                if let Some(n) = obs.strip_prefix("OK units=").and_then(|r| r.split(' ').next()).and_then(|x| x.parse::<usize>().ok()) {
+                    if n != indep {
+                        v = format!("FAIL the MT reader cut {} units, the stream has {} independent units", n, indep);
+                    }
+                }
+            }
+        }
+        (obs, v)
     }
 
     /// scan_members of LZIPReaderMT (runs in new()): member_count() or the error kind
